@@ -1079,10 +1079,17 @@ expand_manifests(string &expr, bool expand_undefined,
           vector_string args;
           if (manifest->_has_parameters) {
             // If it's not followed by a parenthesis, don't expand it.
+            size_t ident_end = p;
             while (p < expr.size() && isspace(expr[p])) {
               p++;
             }
             if (p >= expr.size() || expr[p] != '(') {
+              if (expand_undefined) {
+                // This is not an invocation, so the name is an ordinary
+                // identifier, which counts as 0 in an #if expression.
+                expr = expr.substr(0, q) + "0" + expr.substr(ident_end);
+                p = q + 1;
+              }
               continue;
             }
 
